@@ -32,3 +32,5 @@ def run(ck):
     sizes.resize_rules(ck, {"restore_scaled": "C17.R2", "restore_raw": "C10.R1"})
     conv.rescaling_siblings(ck, "C10.R1", "C10.R2")
     fresh.no_hidden_state(ck, "C20.R8")                  # results depend on the documented state only (no caches / memos)
+    conv.scaled_value_type(ck, "C17.R8")
+    fresh.reset_only_by_user(ck, "C04.R7")
